@@ -68,6 +68,7 @@ SEEDS = {
     "c16-4": ("C16", "a header whose NAME is all digits (not a valid index) referenced by name in a print string", ["C16"]),
     "c17-4": ("C17", "an integer literal with 16 or more digits (not exactly representable as a double)", ["C17"]),
     "c18-4": ("C18", "breadth-first method + raise policy abort on the FINAL line of the aborting member's scan (completed: true)", ["C18"]),
+    "c19-4": ("C19", "CsvPaths-managed run with a warm header cache and a header cell with ; , | tab or backtick at its edge next to a space", ["C19"]),
     "c20-4": ("C20", "$group.headers.h.member into a group of >= 2 members one of which collected zero lines", ["C20"]),
     "c02-1": ("C02", "lone reversed range whose low bound is 0 ([3-0]) with record 0 non-blank and a later non-blank record in range", ["C02"]),
     "c03-1": ("C03", "first() on a value first seen on line 0 that re-appears later; scan must include line 0", ["C03"]),
